@@ -11,7 +11,8 @@ from .. import build, tlc, cases, judge, tlaval
 from ..core import MachineryError
 
 DFLT = ("dflt",)
-MECHS = ["static", "any", "dynamic", "observe"]
+MECHS = ["static", "any", "dynamic", "observe", "anydyn", "decorated"]
+DYNAMIC = ["dynamic", "observe", "anydyn"]
 _cls = {}
 
 
@@ -41,11 +42,12 @@ def quiet():
 
 
 def get_class(cfg):
-    key = (cfg["mode"], cfg["kind"], cfg["typed"])
+    key = (cfg["mode"], cfg["kind"], cfg["typed"], cfg["shape"])
     if key in _cls:
         return _cls[key]
     build.install()
-    from traits.api import HasTraits, Any, Event, TraitType, ComparisonMode
+    from traits.api import HasTraits, Any, Event, TraitType, ComparisonMode, observe
+    from traits.observation.events import TraitChangeEvent
     quiet()
     cm = {"none": ComparisonMode.none, "identity": ComparisonMode.identity, "equality": ComparisonMode.equality}[cfg["mode"]]
 
@@ -64,6 +66,13 @@ def get_class(cfg):
     def static(self, old, new):
         self._rec("static", old, new)
 
+    def decorated(self, event):
+        # an @observe handler with the magic static-handler name, defined in a base class
+        if isinstance(event, TraitChangeEvent):
+            self._rec("decorated", event.old, event.new)
+        else:
+            self._rec("decorated", BADCALL, BADCALL)
+
     def anytrait(self, name, old, new):
         if name == "x":
             self._rec("any", old, new)
@@ -72,17 +81,36 @@ def get_class(cfg):
         self._log.append((mech, old, new))
         if mech in self._raising:
             raise RuntimeError("handler %s raises" % mech)
-    ns = {"x": tr, "_anytrait_changed": anytrait, "_rec": _rec, "_log": None, "_raising": ()}
-    ns["_x_fired" if cfg["kind"] == "event" else "_x_changed"] = static
-    cls = type("C02_%s_%s_%s" % key, (HasTraits,), ns)
+    magic = "_x_fired" if cfg["kind"] == "event" else "_x_changed"
+    ns = {"x": tr, "y": NoBad(), "_rec": _rec, "_log": None, "_raising": ()}
+    name = "C02_%s_%s_%s_%s" % key
+    if cfg["shape"] == "plain":
+        ns["_anytrait_changed"] = anytrait
+        ns[magic] = static
+        cls = type(name, (HasTraits,), ns)
+    elif cfg["shape"] == "inherited":
+        ns["_anytrait_changed"] = anytrait
+        decorated.__name__ = magic
+        ns[magic] = observe("x")(decorated)
+        base = type(name + "_Base", (HasTraits,), ns)
+        cls = type(name, (base,), {})
+    else:
+        cls = type(name, (HasTraits,), ns)
     _cls[key] = cls
     return cls
+
+
+class _BadCall(object):
+    pass
+
+
+BADCALL = _BadCall()
 
 
 class World(object):
     """one object + fresh value objects for a history"""
 
-    def __init__(self, cfg, raising):
+    def __init__(self, cfg, raising, regs=DYNAMIC):
         from traits.api import Undefined
         import numpy
         self.cfg = cfg
@@ -96,9 +124,30 @@ class World(object):
         obj.__dict__["_raising"] = tuple(raising)
         cls.__init__(obj)
         self.obj = obj
-        obj.on_trait_change(lambda o, n, old, new: obj._rec("dynamic", old, new), "x")
-        obj.observe(lambda ev: obj._rec("observe", ev.old, ev.new), "x")
+
+        def anydyn(o, n, old, new):
+            if n == "x":
+                obj._rec("anydyn", old, new)
+        self.h = {"dynamic": lambda o, n, old, new: obj._rec("dynamic", old, new),
+                  "observe": lambda ev: obj._rec("observe", ev.old, ev.new), "anydyn": anydyn}
+        self.regs = set()
+        for m in regs:
+            self.register(m, True)
         obj._log.clear()
+
+    def register(self, m, on):
+        obj = self.obj
+        if m == "dynamic":
+            obj.on_trait_change(self.h[m], "x", remove=not on)
+        elif m == "observe":
+            obj.observe(self.h[m], "x", remove=not on)
+        elif m == "anydyn":
+            obj.on_trait_change(self.h[m], remove=not on)
+        else:
+            raise MachineryError(m)
+        (self.regs.add if on else self.regs.discard)(m)
+
+    quiet_form = 0
 
     def tok(self, o):
         return self.id2tok.get(id(o), "other")
@@ -120,11 +169,26 @@ class World(object):
         obj = self.obj
         obj._log.clear()
         pre = self.stored()
+        regs = sorted(self.regs)
         exc = ""
         ret = "none"
         try:
             if op == "assign":
                 obj.x = self.tok2obj[v]
+            elif op == "setq":
+                if self.quiet_form == 0:
+                    obj.trait_setq(x=self.tok2obj[v])
+                else:
+                    obj.trait_set(trait_change_notify=False, x=self.tok2obj[v])
+            elif op == "setq2":
+                if self.quiet_form == 0:
+                    obj.trait_setq(x=self.tok2obj[v], y=BAD)
+                else:
+                    obj.trait_set(trait_change_notify=False, x=self.tok2obj[v], y=BAD)
+            elif op == "reg":
+                self.register(v, True)
+            elif op == "unreg":
+                self.register(v, False)
             elif op == "read":
                 ret = self.tok(obj.x)
             elif op == "delete":
@@ -139,7 +203,7 @@ class World(object):
         for mech, old, new in obj._log:
             calls[mech].append([self.tok(old), self.tok(new)])
         return {"cfg": self.cfg, "raising": sorted(obj._raising), "op": op, "v": v, "pre": pre, "post": self.stored(),
-                "exc": exc, "ret": ret, "calls": calls}
+                "exc": exc, "ret": ret, "calls": calls, "regs": regs}
 
 
 RAISING_SETS = [(), ("static",), ("any",), ("dynamic",), ("observe",), ("static", "dynamic", "observe"), tuple(MECHS)]
@@ -151,14 +215,18 @@ def case_fn(st, rep):
         return None
     if rep >= len(RAISING_SETS):
         return None
-    cfg = {"mode": str(last["cfg"]["mode"]), "kind": str(last["cfg"]["kind"]), "typed": bool(last["cfg"]["typed"])}
+    cfg = {"mode": str(last["cfg"]["mode"]), "kind": str(last["cfg"]["kind"]), "typed": bool(last["cfg"]["typed"]),
+           "shape": str(last["cfg"]["shape"])}
     w = World(cfg, RAISING_SETS[rep])
+    w.quiet_form = rep % 2
     if cfg["kind"] == "event" and last["pre"] != "unset":
         return None
     w.establish(str(last["pre"]))
     r = w.step(str(last["op"]), str(last["v"]))
     r["pre"] = str(last["pre"])
-    return {"fail": None, "line": r, "sample": r}
+    # ... and the object goes on notifying: one more assignment from the real post-state (always a change for tuples)
+    r2 = w.step("assign", "v2" if r["post"] != "v2" else "v1")
+    return {"fail": None, "lines": [r, r2], "sample": r}
 
 
 def history_lines(seed, ntraces, steps):
@@ -167,14 +235,22 @@ def history_lines(seed, ntraces, steps):
     toks = ["v1", "v1e", "v2", "nanA", "nanB", "er", "arrA", "arrB", "none", "dflt", "bad"]
     for t in range(ntraces):
         cfg = {"mode": rnd.choice(["none", "identity", "equality"]), "kind": "trait" if rnd.random() < 0.85 else "event",
-               "typed": rnd.random() < 0.5}
+               "typed": rnd.random() < 0.5, "shape": rnd.choice(["plain", "inherited", "bare", "bare"])}
         raising = [m for m in MECHS if rnd.random() < 0.25]
-        w = World(cfg, raising)
+        w = World(cfg, raising, regs=[m for m in DYNAMIC if rnd.random() < 0.3])
+        w.quiet_form = rnd.randint(0, 1)
         for _ in range(steps):
             u = rnd.random()
-            if u < 0.8:
+            if u < 0.55:
                 r = w.step("assign", rnd.choice(toks))
-            elif u < 0.9:
+            elif u < 0.75:
+                m = rnd.choice(DYNAMIC)
+                r = w.step("unreg" if m in w.regs else "reg", m)
+            elif u < 0.8:
+                r = w.step("setq", rnd.choice(toks))
+            elif u < 0.84:
+                r = w.step("setq2", rnd.choice(toks))
+            elif u < 0.92:
                 r = w.step("read", "none")
             else:
                 r = w.step("delete", "none")
@@ -189,6 +265,8 @@ def run(rep, tier, seed):
     try:
         cfg = "NotifyMC_%s.cfg" % tier
         dump = os.path.join(work, "cases")
+        hres = tlc.run_tlc("NotifyMC", "NotifyMC_hist_%s.cfg" % tier, timeout=3000, workers=4)
+        rep.add_tlc("NotifyMC_hist", hres)
         res = tlc.run_tlc("NotifyMC", cfg, dump=dump, timeout=3000, workers=8)
         rep.add_tlc("NotifyMC", res)
         trace = os.path.join(work, "trace.ndjson")
@@ -226,7 +304,7 @@ def replay(rep, path):
     build.install()
     obj = json.load(open(path))
     rec = (obj.get("case") or {}).get("record")
-    w = World(rec["cfg"], rec["raising"])
+    w = World(rec["cfg"], rec["raising"], regs=rec.get("regs", DYNAMIC))
     w.establish(rec["pre"])
     print("recorded:", rec)
     print("now     :", w.step(rec["op"], rec["v"]))
